@@ -69,7 +69,10 @@
 //     as ("set m[k]", [k, fields of v…]) (scalar fields of a translated struct
 //     in declaration order, "nil" for a nil pointer); a store to a field of
 //     abstract type of a translated struct (`rec.Time = start`) is recorded
-//     like a write to an abstract object: ("set rec.Time", ["start"]).
+//     like a write to an abstract object: ("set rec.Time", ["start"]);
+//   - "out" lists local variables (typically pointers the function mutates
+//     through, `rec.Queries++`) whose final value is returned after the
+//     declared results; they start as their zero value.
 //
 // Anything else is a translation error: the generated definition is replaced
 // by a marker that makes the Tie theorem fail, i.e. a broken obligation.
@@ -117,6 +120,8 @@ type TrFunc struct {
 	// Pure lists printed callee expressions whose calls are opaque *values*
 	// that are not recorded in the trace (getters such as t.UnixNano).
 	Pure []string `json:"pure,omitempty"`
+	// Out lists local variables whose final value is returned as well.
+	Out []string `json:"out,omitempty"`
 }
 
 type trSpecFile struct {
@@ -1237,6 +1242,9 @@ func (c *fctx) ret(vals []string) string {
 		parts = append(parts, leanIdent(c.recv))
 	}
 	parts = append(parts, vals...)
+	for _, o := range c.spec.Out {
+		parts = append(parts, leanIdent(o))
+	}
 	if c.trace {
 		parts = append(parts, "tr")
 	}
@@ -1966,10 +1974,23 @@ func (t *translator) translate(sp TrFunc) (fo *funcOut) {
 		}
 		resTypes = append(resTypes, lt)
 	}
+	pre := ""
+	for _, o := range sp.Out {
+		var ov types.Object
+		for id, d := range p.info.Defs {
+			if d != nil && id.Name == o && id.Pos() >= fd.Body.Pos() && id.Pos() <= fd.Body.End() && (ov == nil || d.Pos() < ov.Pos()) {
+				ov = d
+			}
+		}
+		if ov == nil || t.leanType(ov.Type()) == "" {
+			fail("out variable %s", o)
+		}
+		resTypes = append(resTypes, t.leanType(ov.Type()))
+		pre += fmt.Sprintf("let %s : %s := %s\n", leanIdent(o), t.leanType(ov.Type()), c.zero(ov.Type()))
+	}
 	if c.trace {
 		resTypes = append(resTypes, "(List (String × List String))")
 	}
-	pre := ""
 	if c.named {
 		for _, v := range c.results {
 			pre += fmt.Sprintf("let %s : %s := %s\n", leanIdent(v.Name()), t.leanType(v.Type()), c.zero(v.Type()))
